@@ -74,6 +74,7 @@ type c19Srv struct {
 	streamW   http.ResponseWriter
 	streamUp  chan struct{}
 	answered  chan struct{}
+	refuseDel bool
 	done      chan struct{}
 }
 
@@ -182,7 +183,14 @@ func (s *c19Srv) serve(w http.ResponseWriter, r *http.Request) {
 		case <-s.done:
 		}
 	case "delete":
-		w.WriteHeader(200)
+		s.mu.Lock()
+		refuse := s.refuseDel
+		s.mu.Unlock()
+		if refuse {
+			w.WriteHeader(405)
+		} else {
+			w.WriteHeader(200)
+		}
 	case "notification":
 		w.WriteHeader(202)
 	case "answer":
@@ -313,11 +321,15 @@ func c19Run(sc c19Scenario) (res c19Result) {
 			_, err = cl.CallTool(ctx, req)
 		case "notify":
 			err = cl.SendRootsListChangedNotification(ctx)
-		case "serverasks":
+		case "serverasks", "serverasksother":
 			for len(srv.answered) > 0 {
 				<-srv.answered
 			}
-			if !srv.pushOnStream(`{"jsonrpc":"2.0","id":"srv-1","method":"roots/list"}`) {
+			ask := `{"jsonrpc":"2.0","id":"srv-1","method":"roots/list"}`
+			if op == "serverasksother" {
+				ask = `{"jsonrpc":"2.0","id":"srv-2","method":"sampling/createMessage","params":{"messages":[],"maxTokens":1}}`
+			}
+			if !srv.pushOnStream(ask) {
 				o.Res = "nostream"
 				break
 			}
@@ -326,8 +338,14 @@ func c19Run(sc c19Scenario) (res c19Result) {
 			case <-time.After(1200 * time.Millisecond):
 				o.Res = "noanswer"
 			}
-		case "terminate":
+		case "terminate", "terminaterefused":
+			srv.mu.Lock()
+			srv.refuseDel = op == "terminaterefused"
+			srv.mu.Unlock()
 			err = cl.TerminateSession(ctx)
+			if op == "terminaterefused" && err != nil && !strings.Contains(err.Error(), errC19Before.Error()) {
+				o.Res, err = "refused", nil
+			}
 		default:
 			res.Broken = "unknown op " + op
 		}
